@@ -964,7 +964,7 @@ pub fn selftest(tier: Tier, base_seed: u64) -> i32 {
         }
     }
     std::env::remove_var("VERIF_WORKERS");
-    let path = format!("{}/evidence/selftest.json", verif_dir());
+    let path = format!("{}/selftest.json", verif_dir());
     let _ = std::fs::write(&path, serde_json::to_string_pretty(&json!({"tier": format!("{tier:?}"), "seed": base_seed, "scenarios": report})).unwrap());
     if bad > 0 {
         eprintln!("HARNESS ERROR: {bad} scenario(s) are not deterministic");
